@@ -15,8 +15,11 @@ From Coq Require Import NArith ZArith List Bool Permutation.
 From GV Require Import model.Sql.
 Import ListNotations.
 
-Definition rel := list row.
-Definition pred := row -> res bool.
+(* `row`/`rel` are notations here (Sql.row is a definition): every term below is syntactically over
+   `list value`, which keeps rewriting in the proofs free of delta-conversion mismatches *)
+Notation row := (list value) (only parsing).
+Notation rel := (list (list value)) (only parsing).
+Notation pred := (list value -> res bool) (only parsing).
 
 Definition bag_eq (a b : rel) : Prop := Permutation a b.
 Infix "≡b" := bag_eq (at level 70).
@@ -46,6 +49,10 @@ Definition pexpr (e : expr) : pred := fun x => opt_pred (eval_expr [] [x]) (Some
 Definition pand (p q : pred) : pred := fun x => do a <- p x; do b <- q x; Ok (a && b).
 Definition por (p q : pred) : pred := fun x => do a <- p x; do b <- q x; Ok (a || b).
 Definition ptrue : pred := fun _ => Ok true.
+(* short-circuit conjunction, left to right (what a selection executor that stops at the first false
+   conjunct computes); Sql.v's AND is strict: both operands are always evaluated *)
+Definition pand_sc (p q : pred) : pred := fun x => do a <- p x; if a then q x else Ok false.
+Definition pand_all_sc (ps : list pred) : pred := fold_right pand_sc ptrue ps.
 Definition pand_all (ps : list pred) : pred := fold_right pand ptrue ps.
 
 (* ---------------------------------------------------------------- res-level operators *)
@@ -132,7 +139,7 @@ Definition pagg (glob : bool) (key : row -> row) (out : row * list row -> row) (
 Definition cols (cs : list nat) (x : row) : row := map (fun i => nth i x VNull) cs.
 
 (* the two candidate join-back conditions of a decorrelated plan: T.corr vs the trailing columns of the
-   right side, which has arity ra and carries the correlated values in its LAST `length cs` columns *)
+   right side, which carries the correlated values in its FIRST `length cs` columns *)
 Definition eq_true (a b : value) : bool :=
   match cmp3 CEq a b with Ok (VBool true) => true | _ => false end.
 Fixpoint row_eq_true (a b : row) : bool :=
